@@ -319,3 +319,21 @@ def c11(ctx):
                     trace_module="Trace_C11", sigfn=V.default_sig,
                     assumptions=["TLC/SANY and the JVM", "Timecodes (C04) for the 33-bit timestamps", "a PES start shorter than 7 bytes is outside the decoder's documented input domain",
                                  "data_alignment_indicator is compared only for stream ids that carry the optional header"])
+
+
+# ---------------------------------------------------------------- C12
+
+@prop("C12", "Trace_C12")
+def c12(ctx):
+    V.mc(ctx, "MC_C12", workers=8)
+    summ = V.gen_traces(ctx, shards=12)
+    V.validate(ctx, "Trace_C12", summ, V.default_sig, par=12)
+    return V.finish(ctx, "model_checking",
+                    rule="MC: Ebp!Parse inverts the assembly of both flavours for all 256 flag bytes x grouping chains 1..3 x reserved tails 0..2, length byte included; the NTP conversion agrees with "
+                         "integer arithmetic at era boundaries and rounding points. B3: ReadEncoderBoundaryPoint on generated well-formed EBPs of both flavours (every flag combination, SAP, "
+                         "grouping chains incl. 0x1C/0x1D, extreme seconds/fractions, partition flags, reserved tails) with every getter and the re-encoding validated by TLC; builder histories "
+                         "through the setter API with decode-back; SetEBPTime/EBPTime over 1968..2104 with nanosecond boundary values (|t'-t| <= 1 ns in 64-bit Wide arithmetic). "
+                         "class = (op, flavour, meaningful flag bits / era and nanosecond bucket)",
+                    trace_module="Trace_C12", sigfn=V.default_sig,
+                    assumptions=["TLC/SANY and the JVM", "module Wide for 64-bit nanosecond arithmetic", "Go's time package (instants are logged as seconds since 1900 + nanoseconds)",
+                                 "the Comcast flavour carries exactly one grouping byte"])
